@@ -33,7 +33,7 @@ def cmp_keys_asc(op):
     """id-exact comparison with the model's ascending `add` only if CPython iterated the shared-id sets ascending"""
     for st in op['steps']:
         if st['k'] == 'add' and st.get('asc') is False:
-            return ('cons', 'den', 'length')
+            return ('cons', 'den', 'length', 'other_unchanged', 'shares_objects')
     return None
 
 
@@ -80,6 +80,35 @@ def perturb_graph(rng, raw):
     return raw, tag
 
 
+def corpus_ops():
+    """minimised past findings, run first: an unconnected non-terminal node next to a terminal (simplify / merge_edges
+    used to merge the terminal node away), both edge-id orders, both directions, also inside longer graphs"""
+    ops = []
+    for order in ([10, 11], [11, 10]):
+        # source node 1 next to the start terminal 0
+        ga = {'nodes': [[0, [], [10], 0], [1, [], [11], 0], [2, order, [], 0]],
+              'edges': [[10, [0, 2], [[1, 1]]], [11, [1, 2], [[1, 1]]]], 'term': [0, 2]}
+        # sink node 2 next to the end terminal 1
+        gb = {'nodes': [[0, [], order, 0], [1, [10], [], 0], [2, [11], [], 0]],
+              'edges': [[10, [0, 1], [[1, 1]]], [11, [0, 2], [[1, 1]]]], 'term': [0, 1]}
+        # the same in the middle of a length-2 graph
+        gc = {'nodes': [[0, [], [10], 0], [1, [], [11], 0], [2, order, [12], 0], [3, [12], [], 0]],
+              'edges': [[10, [0, 2], [[1, 2]]], [11, [1, 2], [[1, 2]]], [12, [2, 3], [[2, 1]]]], 'term': [0, 3]}
+        # an unconnected chain 4 -> 1 next to the start terminal 0 (the terminal must not acquire upstream edges) ...
+        gd = {'nodes': [[0, [], [10], 0], [4, [], [13], 0], [1, [13], [11], 0], [2, order, [], 0]],
+              'edges': [[10, [0, 2], [[1, 1]]], [11, [1, 2], [[1, 1]]], [13, [4, 1], [[2, 1]]]], 'term': [0, 2]}
+        # ... and an unconnected chain 1 -> 4 next to the end terminal 2
+        ge = {'nodes': [[0, [], order, 0], [2, [10], [], 0], [1, [11], [13], 0], [4, [13], [], 0]],
+              'edges': [[10, [0, 2], [[1, 1]]], [11, [0, 1], [[1, 1]]], [13, [1, 4], [[2, 1]]]], 'term': [0, 2]}
+        for gr, dr in ((ga, 1), (gb, 0), (gc, 1), (gd, 1), (ge, 0)):
+            for steps in ([{'k': 'simplify'}], [{'k': 'simplify_step', 'direction': dr}, {'k': 'simplify'}],
+                          [{'k': 'merge_edges', 'eid1': 10, 'eid2': 11, 'direction': dr}],
+                          [{'k': 'merge_edges', 'eid1': 11, 'eid2': 10, 'direction': dr}],
+                          [{'k': 'flip'}, {'k': 'simplify'}]):
+                ops.append({'op': 'og.rewrite', 'graph': copy.deepcopy(gr), 'steps': copy.deepcopy(steps)})
+    return ops
+
+
 def _corr_shard(name, shard, nshards, tier, seed):
     c = Corr(name)
     rng = np.random.default_rng([seed, shard, 16])
@@ -90,6 +119,9 @@ def _corr_shard(name, shard, nshards, tier, seed):
         if name == 'rewrite.add_ascending':
             n = n // 2
         ops, metas = [], []
+        if name == 'rewrite.history' and shard == 0:
+            ops = corpus_ops()
+            metas = [{'cls': cls_hist, 'branches': ['corpus']} for _ in ops]
         for _ in range(n):
             op, L, charged = oglib.gen_history(rng, maxlen)
             if name == 'rewrite.add_ascending':
@@ -159,6 +191,35 @@ def sym_rev(a):
     return oglib.sym_norm([(tuple(reversed(w)), frac(c)) for w, c in a])
 
 
+def other_untouched(g, other, other_snap):
+    """'... and leaves the other graph untouched': same serialisation, no shared objects, and later in-place edits of
+    the updated graph (done on a joint deep copy of the pair, which preserves any sharing) do not reach it"""
+    if oglib.ser_graph(other) != other_snap:
+        return 'the other graph was modified (serialisation differs from the snapshot taken before the call)'
+    if oglib.shares_objects(g, other):
+        return 'the updated graph shares node / edge objects (or their lists) with the other graph'
+    g2, o2 = copy.deepcopy((g, other))
+    opmap = {o: np.array([[1.0, float(o)], [0.5, 1.0]]) for o in range(-1, 8)}
+    try:
+        ref = o2.as_matrix(opmap)
+    except Exception:
+        ref = None
+    g2.flip()
+    for e in g2.edges.values():
+        e.opics[:] = [(i, 2 * c) for i, c in e.opics]
+    t = g2.nid_terminal[0]
+    g2.rename_node_id(t, max(g2.nodes.keys()) + 7)
+    if oglib.ser_graph(o2) != other_snap:
+        return 'later in-place edits of the updated graph (flip, scaling, renaming) changed the other graph'
+    if ref is not None:
+        try:
+            if not np.array_equal(o2.as_matrix(opmap), ref):
+                return 'as_matrix of the other graph changed after editing the updated graph'
+        except Exception as ex:
+            return f'as_matrix of the other graph raises {type(ex).__name__} after editing the updated graph'
+    return None
+
+
 def oracle_history(raw, steps):
     """run the history on the real code, checking the property after every step; None or a description"""
     try:
@@ -213,8 +274,10 @@ def oracle_history(raw, steps):
             return f'step {idx} ({k}): graph is not consistent afterwards'
         if k in ('simplify', 'simplify_step') and (len(g.nodes) > nn or len(g.edges) > ne):
             return f'step {idx} ({k}): number of nodes/edges increased'
-        if k == 'add' and oglib.ser_graph(other) != other_snap:
-            return f'step {idx} (add): the other graph was modified'
+        if k == 'add':
+            r = other_untouched(g, other, other_snap)
+            if r:
+                return f'step {idx} (add): {r}'
         den = got
     return None
 
@@ -231,6 +294,8 @@ def search(tier, seed, hints, budget_s):
 
     def gen():
         yield from cands
+        for op in corpus_ops():
+            yield op['graph'], op['steps']
         while True:
             op, _, _ = oglib.gen_history(rng, 10 if tier == 'quick' else 30, allow_bad=False)
             yield op['graph'], op['steps']
